@@ -135,9 +135,100 @@ func reclaimOne(cooldownMs int, event, window string, parked int) string {
 	return fmt.Sprintf("size=%d backlog=0", size)
 }
 
+// busyOne: a consumer keeps up with a producer that never pauses for as long as the cooldown (Put/Get/Commit every ~0.3 ms for five
+// cooldowns).  The cooldown is a minimum distance between cleanups, not a quiet period to wait for: at every expiry the pending
+// change is re-broadcast and the consumed prefix reclaimed, so several cleanups must be seen while the activity lasts.
+func busyOne(cooldownMs int) string {
+	b := new(bigbuff.Buffer)
+	defer func() { go b.Close() }()
+	if err := b.SetCleanerConfig(bigbuff.CleanerConfig{Cleaner: bigbuff.DefaultCleaner, Cooldown: time.Duration(cooldownMs) * time.Millisecond}); err != nil {
+		return "setup-error"
+	}
+	time.Sleep(15 * time.Millisecond) // the lazily installed default cooldown (10 ms) has expired
+	c, err := b.NewConsumer()
+	if err != nil {
+		return "setup-error"
+	}
+	defer c.Close()
+	var cleans atomic.Int64
+	rm := hk.On(func(e hk.Event) {
+		if e.Name == "buf.clean" && e.Obj == any(b) && e.N > 0 {
+			cleans.Add(1)
+		}
+	})
+	defer rm()
+	bg := context.Background()
+	end := time.Now().Add(time.Duration(5*cooldownMs) * time.Millisecond)
+	maxSize := 0
+	for k := 0; time.Now().Before(end); k++ {
+		b.Put(bg, k)
+		if _, err := c.Get(bg); err != nil {
+			return "get-error"
+		}
+		c.Commit()
+		if n := b.Size(); n > maxSize {
+			maxSize = n
+		}
+		time.Sleep(300 * time.Microsecond)
+	}
+	ok := 0
+	if cleans.Load() >= 2 {
+		ok = 1
+	}
+	return fmt.Sprintf("reclaimed_during_activity=%d", ok)
+}
+
+// fixedBehind: FixedBufferCleaner(4, 4): Put 1..4, four uncommitted Gets, Put 5 (forced trim to [2 3 4 5]: the head moves PAST the
+// consumer's committed offset), then Commit: the only consumer has now consumed [2 3 4], which must be reclaimed without any further
+// operation (a commit by a consumer that is behind the head is a state change like any other).
+func fixedBehind(cooldownMs int) string {
+	b := new(bigbuff.Buffer)
+	defer func() { go b.Close() }()
+	if err := b.SetCleanerConfig(bigbuff.CleanerConfig{Cleaner: bigbuff.FixedBufferCleaner(4, 4, nil), Cooldown: time.Duration(cooldownMs) * time.Millisecond}); err != nil {
+		return "setup-error"
+	}
+	time.Sleep(15 * time.Millisecond)
+	c, err := b.NewConsumer()
+	if err != nil {
+		return "setup-error"
+	}
+	defer c.Close()
+	bg := context.Background()
+	b.Put(bg, 1, 2, 3, 4)
+	for i := 0; i < 4; i++ {
+		if _, err := c.Get(bg); err != nil {
+			return "get-error"
+		}
+	}
+	b.Put(bg, 5)
+	deadline := time.Now().Add(time.Second)
+	for b.Size() != 4 && time.Now().Before(deadline) {
+		time.Sleep(200 * time.Microsecond)
+	}
+	if b.Size() != 4 {
+		return fmt.Sprintf("not-trimmed size=%d", b.Size())
+	}
+	if err := c.Commit(); err != nil {
+		return "commit-error"
+	}
+	deadline = time.Now().Add(time.Duration(3*cooldownMs)*time.Millisecond + time.Second)
+	for b.Size() != 1 && time.Now().Before(deadline) {
+		time.Sleep(200 * time.Microsecond)
+	}
+	return fmt.Sprintf("size=%d", b.Size())
+}
+
 func execCleanGate(t *trace, script []string) {
 	for _, line := range script {
 		f := strings.Fields(line)
+		if len(f) == 2 && f[0] == "busy" {
+			t.Line(line, busyOne(atoi(f[1])))
+			continue
+		}
+		if len(f) == 2 && f[0] == "fixedbehind" {
+			t.Line(line, fixedBehind(atoi(f[1])))
+			continue
+		}
 		if len(f) == 4 && f[0] == "reclaim" {
 			t.Line(line, reclaimOne(atoi(f[1]), f[2], f[3], 0))
 		} else if len(f) == 5 && f[0] == "reclaim" {
@@ -161,6 +252,7 @@ func genCleanGate(r *rng.R, tier string, i int) []string {
 			}
 		}
 	}
+	s = append(s, fmt.Sprintf("busy %d", 40+r.Intn(30)), "fixedbehind 0", "fixedbehind 10")
 	for k := len(s) - 1; k > 0; k-- {
 		j := r.Intn(k + 1)
 		s[k], s[j] = s[j], s[k]
